@@ -557,6 +557,7 @@ type hop struct {
 	V     *tval    `json:"v,omitempty"`
 	Chain [][]tval `json:"chain,omitempty"`
 	Keys  []tval   `json:"keys,omitempty"`
+	Hd    int      `json:"hd,omitempty"`   // which of the live handles on the container's path performs the operation
 	Slot  int      `json:"slot,omitempty"` // >0: dopen keeps the sub-dictionary of Chain in this slot; d* ops with the slot use the kept handle
 }
 
@@ -603,6 +604,10 @@ func (o hop) coq() string {
 		return fmt.Sprintf("HDSet %d %s %s (%s)", o.C, chain, coqTvs(o.Keys), o.V.coq())
 	case "dset0", "dopen":
 		return fmt.Sprintf("HDSet0 %d %s", o.C, chain)
+	case "snap":
+		return "HSnap"
+	case "rollback":
+		return "HRollback"
 	case "ddel":
 		return fmt.Sprintf("HDDel %d %s %s", o.C, chain, coqTvs(o.Keys))
 	}
@@ -627,7 +632,10 @@ func valRes(v containerdb.Value) (string, []byte, bool) {
 	return "RVal " + optB(b), b, true
 }
 
-// runs a history on the implementation and on plain Go slices/maps (the direct oracle)
+const nHandles = 3
+
+// runs a history on the implementation and on plain Go slices/maps (the direct oracle);
+// the reference is per PATH: every container has nHandles live handles on the same store and key
 func execHist(h history) (outs []string, tab htab, msg string) {
 	tab = htab{}
 	store := &mapStore{m: map[string][]byte{}}
@@ -636,6 +644,9 @@ func execHist(h history) (outs []string, tab htab, msg string) {
 		v    *containerdb.VarDB
 		a    *containerdb.ArrayDB
 		d    *containerdb.DictDB
+		vs   []*containerdb.VarDB
+		as   []*containerdb.ArrayDB
+		ds   []*containerdb.DictDB
 		base [][]byte
 		// reference
 		rv []byte
@@ -655,13 +666,16 @@ func execHist(h history) (outs []string, tab htab, msg string) {
 		if root != nil {
 			kb = root.Append(goVals(d.Parts[1:])...)
 		}
-		switch d.Kind {
-		case "var":
-			c.v = containerdb.NewVarDB(store, kb)
-		case "arr":
-			c.a = containerdb.NewArrayDB(store, kb)
-		case "dict":
-			c.d = containerdb.NewDictDB(store, d.Depth, kb)
+		// several live handles on the same path and store
+		for k := 0; k < nHandles; k++ {
+			switch d.Kind {
+			case "var":
+				c.vs = append(c.vs, containerdb.NewVarDB(store, kb))
+			case "arr":
+				c.as = append(c.as, containerdb.NewArrayDB(store, kb))
+			case "dict":
+				c.ds = append(c.ds, containerdb.NewDictDB(store, d.Depth, kb))
+			}
 		}
 		refKey(h.BT, c.base, tab)
 		cs[i] = c
@@ -673,8 +687,60 @@ func execHist(h history) (outs []string, tab htab, msg string) {
 	}
 	same := func(a, b []byte) bool { return (a == nil) == (b == nil) && bytes.Equal(a, b) }
 	slot := func(c *cont, extra ...[]byte) { refKey(h.BT, append(append([][]byte{}, c.base...), extra...), tab) }
+	type snapshot struct {
+		m  map[string][]byte
+		rv [][]byte
+		ra [][][]byte
+		rd []map[string][]byte
+	}
+	take := func() snapshot {
+		sn := snapshot{m: map[string][]byte{}}
+		for k, v := range store.m {
+			sn.m[k] = v
+		}
+		for _, c := range cs {
+			sn.rv = append(sn.rv, c.rv)
+			sn.ra = append(sn.ra, append([][]byte{}, c.ra...))
+			rd := map[string][]byte{}
+			for k, v := range c.rd {
+				rd[k] = v
+			}
+			sn.rd = append(sn.rd, rd)
+		}
+		return sn
+	}
+	snap := take()
 	for i, o := range h.Ops {
+		if o.O == "snap" {
+			snap = take()
+			outs = append(outs, "ROk")
+			continue
+		}
+		if o.O == "rollback" {
+			// the state is reset under the live handles (a reverted transaction): they are kept
+			store.m = map[string][]byte{}
+			for k, v := range snap.m {
+				store.m[k] = v
+			}
+			for j, c := range cs {
+				c.rv = snap.rv[j]
+				c.ra = append([][]byte{}, snap.ra[j]...)
+				c.rd = map[string][]byte{}
+				for k, v := range snap.rd[j] {
+					c.rd[k] = v
+				}
+			}
+			outs = append(outs, "ROk")
+			continue
+		}
 		c := cs[o.C]
+		if hd := o.Hd % nHandles; len(c.vs) > 0 {
+			c.v = c.vs[hd]
+		} else if len(c.as) > 0 {
+			c.a = c.as[hd]
+		} else if len(c.ds) > 0 {
+			c.d = c.ds[hd]
+		}
 		var vb []byte
 		if o.V != nil {
 			vb = o.V.ref()
@@ -893,7 +959,24 @@ func genHistory(r *rand.Rand) history {
 	n := 18 + r.Intn(30)
 	alen := map[int]int{}
 	nslot := 0
+	alenSnap := map[int]int{}
 	for i := 0; i < n; i++ {
+		switch r.Intn(36) {
+		case 0: // copy the store ...
+			h.Ops = append(h.Ops, hop{O: "snap"})
+			alenSnap = map[int]int{}
+			for k, v := range alen {
+				alenSnap[k] = v
+			}
+			continue
+		case 1: // ... and reset it to the copy under the live handles
+			h.Ops = append(h.Ops, hop{O: "rollback"})
+			alen = map[int]int{}
+			for k, v := range alenSnap {
+				alen[k] = v
+			}
+			continue
+		}
 		c := r.Intn(len(h.Cs))
 		d := h.Cs[c]
 		switch d.Kind {
@@ -1004,7 +1087,11 @@ func genHistory(r *rand.Rand) history {
 			}
 		}
 	}
-	// read everything back at the end
+	// every operation goes through one of the live handles on its path
+	for i := range h.Ops {
+		h.Ops[i].Hd = r.Intn(nHandles)
+	}
+	// read everything back at the end (through the first handle, then through another one)
 	for c, d := range h.Cs {
 		switch d.Kind {
 		case "var":
@@ -1012,8 +1099,9 @@ func genHistory(r *rand.Rand) history {
 		case "arr":
 			h.Ops = append(h.Ops, hop{O: "size", C: c})
 			for i := int64(-1); i <= int64(alen[c]); i++ {
-				h.Ops = append(h.Ops, hop{O: "get", C: c, I: i})
+				h.Ops = append(h.Ops, hop{O: "get", C: c, I: i, Hd: int(i+1) % nHandles})
 			}
+			h.Ops = append(h.Ops, hop{O: "size", C: c, Hd: 1}, hop{O: "size", C: c, Hd: 2})
 		}
 	}
 	return h
@@ -1473,7 +1561,7 @@ func main() {
 			"strings/bytes of lengths {0,1,55,56,255,256,65535,65536} and neighbours with header-like first bytes; boundary and confusable tuples ([p++q] vs [p,q], 0x81 x vs x, the 56-byte header ambiguity); " +
 			"ToBytes of every integer boundary with Int64() read-back; SplitKeys on built RLP keys and on a malformed stream (truncated, non-canonical, size fields 1-8 bytes, list tags); " +
 			"200 sibling-key cases (NewHashKey / AppendKeys over a caller's prefix held in a slice with spare capacity, 2-3 siblings derived from one parent, key bytes recorded right after construction and again at the end); " +
-			"400 histories of put/pop/set/get/size, set/get/delete on VarDB, two ArrayDBs and nested DictDBs (GetDB chains, wrong arities) laid out like service/scoredb over one map-backed store, with each builder (half of the hashed ones below one parent builder made over a spare-capacity prefix; sibling sub-dictionaries are derived first and used afterwards). " +
+			"400 histories of put/pop/set/get/size, set/get/delete on VarDB, two ArrayDBs and nested DictDBs (GetDB chains, wrong arities) laid out like service/scoredb over one map-backed store, with each builder (half of the hashed ones below one parent builder made over a spare-capacity prefix; sibling sub-dictionaries are derived first and used afterwards); every container has 3 live handles (NewVarDB/NewArrayDB/NewDictDB on the same store and key) and each operation goes through a random one; the store is copied and later reset to the copy with all handles kept; the reference slice/map is per path. " +
 			"Direct oracles: a built key never changes after it was returned, the caller's prefix slice is not written beyond its length, distinct part lists => distinct keys over everything generated, SplitKeys(AppendKeys(parts)) = parts, per-type injectivity of ToBytes, containers = Go slices/maps. " +
 			"non-trivial = key tuples with >= 2 parts, all ToBytes/history cases, split inputs longer than one byte; distinct = distinct Coq case term",
 		Shard: 250,
